@@ -91,6 +91,16 @@ theorem compile_accepts (e : Expr) (h : e.wf = true) (w : List Nat) :
 theorem compile_live (e : Expr) (h : e.wf = true) (w : List Nat) :
     ((dfa (nfa e)).run 0 w).isSome = true ↔ ∃ v, w ++ v ∈ (Expr.toRE e).lang := compile_live' e h w
 
+/-- the same for the automaton renumbered breadth-first over `.next` — the form in which the harness dumps the
+    real `ContentMatch` graph (compared exactly with `(dfa (nfa e)).bfs` on every run) and in which the schema
+    tables of the other properties hold it -/
+theorem compile_bfs (e : Expr) (h : e.wf = true) (w : List Nat) :
+    ((dfa (nfa e)).bfs.accepts w = true ↔ w ∈ (Expr.toRE e).lang) ∧
+    (((dfa (nfa e)).bfs.run 0 w).isSome = true ↔ ∃ v, w ++ v ∈ (Expr.toRE e).lang) := by
+  obtain ⟨h1, h2⟩ := bfs_accepts _ (compile_dfa_wf e h) w
+  rw [h1, h2]
+  exact ⟨compile_accepts' e h w, compile_live' e h w⟩
+
 /-- the empty expression (`ContentMatch.empty`) -/
 theorem compile_empty (w : List Nat) :
     ((compileDfa none).accepts w = true ↔ w ∈ RE.eps.lang) ∧
